@@ -324,3 +324,86 @@ def replay_case(mode, case):
     for soll in (True, False):
         print(f"soll_is_required={soll}:", short(asyncio.run(real_validate(copy.deepcopy(deep), soll))))
     return 1
+
+
+# ------------------------------------------------------------------ code -> spec on large random AHBs (ValidationTrace.tla)
+def random_nodes(rng, n, labels, pools, inputs=("none", "q1", "q2", "zz")):
+    """a random AHB with n nodes in the encoding of Validation.tla (document order, sub-groups before segments)"""
+    nodes = []
+
+    def ancestors(i):
+        out = []
+        while i:
+            out.append(i)
+            i = nodes[i - 1]["par"]
+        return out
+
+    while len(nodes) < n:
+        last = len(nodes)
+        open_nodes = ancestors(last) if last else []
+        cands = [("g", 0)]
+        for i in open_nodes:
+            k = nodes[i - 1]["kind"]
+            if k == "g":
+                cands.append(("s", i))
+                if not any(m["par"] == i and m["kind"] == "s" for m in nodes):
+                    cands.append(("g", i))
+            elif k == "s":
+                cands += [("f", i), ("f", i), ("p", i)]
+        kind, par = rng.choice(cands)
+        ind, ful = rng.choice(labels).split(".")
+        node = {"kind": kind, "par": par, "lab": {"ind": ind, "ful": ful}, "inp": "none", "pool": ()}
+        if kind == "f":
+            node["inp"] = rng.choice(["none", "text"])
+        if kind == "p":
+            node["lab"] = {"ind": "NONE", "ful": "T"}
+            node["pool"] = tuple(rng.choice(pools))
+            node["inp"] = rng.choice([i for i in inputs if i in ("none", "zz") or int(i[1]) <= len(node["pool"])])
+        nodes.append(node)
+    return nodes
+
+
+def trace_validation(res, work, n_traces, max_nodes=30):
+    """real results for random large AHBs, decided by TLC against Validate"""
+    import ahb  # noqa: F401
+    from common import validate_traces
+    rng = random.Random(seed() * 211 + 9)
+    labels = ["MUSS.T", "MUSS.T", "MUSS.T", "KANN.T", "SOLL.T", "PFX.T", "MUSS.F", "KANN.F", "SOLL.K", "KANN.K", "INV.T", "MUSS.K"]
+    pools = [("T",), ("F",), ("T", "F"), ("F", "F"), ("F", "T", "T"), ("I", "F"), ("K", "T"), ("T", "T", "F")]
+    traces = []
+
+    async def go():
+        for tid in range(1, n_traces + 1):
+            nodes = random_nodes(rng, rng.randint(5, max_nodes), labels if rng.random() < 0.8 else labels[:6], pools)
+            soll = rng.random() < 0.5
+            deep, exprs, _ = build_ahb(nodes, random.Random(tid * 7919 + seed()))
+            real = await real_validate(deep, soll)
+            if real[0] == "exception":
+                res.violation(f"validation of a random AHB with {len(nodes)} nodes raised {real[1]}; expressions {exprs}", {"nodes": nodes, "soll": soll, "seed": seed(), "idx": tid})
+                continue
+            if real[0] == "error":
+                result = [{"id": 0, "status": "ERROR", "fill": "", "flagged": False, "offered": []}]
+            else:
+                result = []
+                for e in real[1]:
+                    k = nodes[e["id"] - 1]["kind"]
+                    st = e["status"]
+                    if k == "p" and st != "FORBIDDEN":
+                        st = "REQUIRED"          # the REQUIRED/OPTIONAL component of a pool's status is not judged (DESIGN 6.6b)
+                    result.append({"id": e["id"], "status": st, "fill": e["fill"], "flagged": bool(e.get("flagged", False)), "offered": list(e.get("offered", []))})
+            traces.append({"id": tid, "nodes": [dict(n, pool=list(n["pool"])) for n in nodes], "soll": soll, "result": result, "exprs": exprs})
+
+    asyncio.run(go())
+    slim = [{k: v for k, v in t.items() if k != "exprs"} for t in traces]
+    t2, acc, diag = validate_traces("ValidationTrace", "ValidationTrace.cfg", slim, work, tag="valtrace")
+    res.add_tlc(f"ValidationTrace: real results for {len(traces)} random AHBs of 5..{max_nodes} nodes decided by TLC against Validate", t2)
+    res.count("traces_validated_against_impl", len(traces))
+    for t in traces:
+        res.distinct(("valtrace", repr(t["nodes"]), t["soll"]))
+        if t["id"] not in acc:
+            at, exp = diag.get(t["id"], (0, ()))
+            got = t["result"][at - 1] if 0 < at <= len(t["result"]) else None
+            res.violation(f"random AHB with {len(t['nodes'])} nodes (soll_is_required={t['soll']}): result entry {at} is {got}, the documented walk gives {exp}; "
+                          f"expressions {t['exprs']}", {"nodes": t["nodes"], "soll": t["soll"], "seed": seed(), "idx": t["id"]})
+    if traces:
+        res.sample({"random_ahb_nodes": len(traces[-1]["nodes"]), "soll": traces[-1]["soll"], "real_result_head": traces[-1]["result"][:4]})
